@@ -1,7 +1,7 @@
 (* C16 — property theorems only.  "ref" = an object together with the data word of the interface value that
    holds it (what eq compares); consistent2 a b = "same Go type and same data word only for the same object". *)
 From Coq Require Import ZArith NArith List Bool Permutation.
-From C16 Require Import Model Spec Rounding RoundExact Proofs Proofs2 Proofs3 Proofs4 Proofs5 Proofs6.
+From C16 Require Import Model Spec Rounding RoundExact Proofs Proofs2 Proofs3 Proofs4 Proofs5 Proofs6 Proofs7.
 Import ListNotations.
 
 (* (1) eq implies eql implies equal implies equalp: every pair of references, no guard. *)
@@ -222,3 +222,36 @@ Theorem C16_table_guard_nonvacuous :
      OEntries [(0%nat, 2%Z); (2%nat, 3%Z); (4%nat, 4%Z); (7%nat, 5%Z)]; OBool true; OGet None; ONum 3; OVal 9; OBool true; ONum 0; OGet None].
 Proof. exact table_guard_nonvacuous. Qed.
 Print Assumptions C16_table_guard_nonvacuous.
+
+(* (10) the table stores the value OBJECT it is given.  Values are codes naming an object (representation and
+   number: Model.v section 7); slip.ObjectEqual (val_equal_m) accepts many pairs of different objects.
+   (a) after (setf (gethash k h) v) the lookup of k is exactly v, from ANY state - in particular when the value
+   that was there is ObjectEqual to v (5.0 over 5); together with C16_table_refines_map: for every history the
+   lookup is the object last stored. *)
+Theorem C16_table_store_then_lookup : forall pool st i v,
+  same_key pool i i = true -> t_find pool (t_put pool st i v) i = Some v.
+Proof. exact store_then_lookup. Qed.
+Print Assumptions C16_table_store_then_lookup.
+(* (b) a store that is skipped when a comparison veq accepts (current value, new value) is the same table for all
+   pools, states, keys and values IF AND ONLY IF veq accepts only identical values *)
+Theorem C16_table_guarded_store_iff_identity : forall veq : Z -> Z -> bool,
+  (forall pool st i v, t_put_unless pool veq st i v = t_put pool st i v) <->
+  (forall a b, veq a b = true -> a = b).
+Proof. exact guarded_store_iff_identity. Qed.
+Print Assumptions C16_table_guarded_store_iff_identity.
+(* (c) ObjectEqual on values is not identity (fixnum / double-float / single-float of one number, two separately
+   made lists with the same element), so the store guarded by it is refuted: 5.0 stored over 5 leaves the fixnum,
+   where the unchanged model and the specification answer the double-float (the count is 1 either way) *)
+Theorem C16_table_equal_value_store_refuted :
+  (forallb (fun p => val_equal_m (fst p) (snd p) && negb (Z.eqb (fst p) (snd p)) && val_wf (fst p) && val_wf (snd p))
+          equal_value_pairs = true /\
+   forallb (fun p => negb (val_equal_m (fst p) (snd p)) && val_wf (fst p) && val_wf (snd p)) unequal_value_pairs = true) /\
+  (let st := t_put one_key_pool [] 0 5%Z in
+   t_find one_key_pool (t_put_unless one_key_pool val_equal_m st 0 105%Z) 0 = Some 5%Z /\
+   t_find one_key_pool (t_put one_key_pool st 0 105%Z) 0 = Some 105%Z /\
+   t_run one_key_pool [] [HPut 0 5%Z; HPut 0 105%Z; HGet 0; HCount] = [OVal 5; OVal 105; OGet (Some 105%Z); ONum 1] /\
+   s_run one_key_pool (fun i j => Nat.eqb i j) [] [HPut 0 5%Z; HPut 0 105%Z; HGet 0; HCount] =
+     [OVal 5; OVal 105; OGet (Some 105%Z); ONum 1] /\
+   List.length (t_put_unless one_key_pool val_equal_m st 0 105%Z) = 1).
+Proof. exact (conj val_equal_not_identity equal_value_store_refuted). Qed.
+Print Assumptions C16_table_equal_value_store_refuted.
